@@ -2,7 +2,7 @@ SPECIFICATION Spec
 CONSTANTS
   MaxPool = 3
   Strategies = {"hash"}
-  Keys = {"a", "-"}
+  Keys = {"a"}
   Pools = {3}
   Presets = {0}
   Hi = 2
